@@ -218,6 +218,57 @@ def EqExpr.terms : EqExpr α → List (Equil α × Int)
   | .add a b => a.terms ++ b.terms
   | .sub a b => a.terms ++ b.terms.map (fun p => (p.1, -1 * p.2))
 
+/-! ### histories that re-use objects -/
+
+/-- one statement `v_k = n * v_i`, `v_k = -v_i`, `v_k = v_i + v_j`, `v_k = v_i - v_j` of an operation history;
+    indices refer to the operand objects and to the results of earlier statements -/
+inductive Step where
+  | scale (n : Int) (i : Nat)
+  | neg (i : Nat)
+  | add (i j : Nat)
+  | sub (i j : Nat)
+
+section history
+variable [Mul α] [Inv α] [NatCast α] [DecidableEq α]
+
+/-- the value bound to variable `i` (an exception raised when `v_i` was computed is re-raised by whoever uses it) -/
+def refAt (vals : List (Except String (Equil α))) (i : Nat) : Except String (Equil α) :=
+  match vals[i]? with
+  | some v => v
+  | none => .error "!bad-ref"
+
+def runStep (vals : List (Except String (Equil α))) : Step → Except String (Equil α)
+  | .scale n i => do let x ← refAt vals i; rmul n x
+  | .neg i => do let x ← refAt vals i; neg x
+  | .add i j => do let x ← refAt vals i; let y ← refAt vals j; add x y
+  | .sub i j => do let x ← refAt vals i; let y ← refAt vals j; sub x y
+
+/-- run a history: every statement sees all operand objects and all earlier results (objects are values:
+    no operation changes its operands) -/
+def runHistory (vals : List (Except String (Equil α))) : List Step → List (Except String (Equil α))
+  | [] => vals
+  | s :: t => runHistory (vals ++ [runStep vals s]) t
+
+end history
+
+/-- the expression tree a statement denotes once the variables are replaced by the trees that defined them -/
+def unfoldStep (exprs : List (EqExpr α)) : Step → Option (EqExpr α)
+  | .scale n i => (exprs[i]?).map (EqExpr.scale n)
+  | .neg i => (exprs[i]?).map EqExpr.neg
+  | .add i j => match exprs[i]?, exprs[j]? with
+      | some a, some b => some (EqExpr.add a b)
+      | _, _ => none
+  | .sub i j => match exprs[i]?, exprs[j]? with
+      | some a, some b => some (EqExpr.sub a b)
+      | _, _ => none
+
+/-- all trees of a history (`none` when a statement refers to a variable that does not exist yet) -/
+def unfoldHistory (exprs : List (EqExpr α)) : List Step → Option (List (EqExpr α))
+  | [] => some exprs
+  | s :: t => match unfoldStep exprs s with
+      | some e => unfoldHistory (exprs ++ [e]) t
+      | none => none
+
 /-! ### eliminate -/
 
 /-- primality by trial division -/
